@@ -158,6 +158,7 @@ pub fn refresh_share<C: Ciphersuite>(
 
     let mut new_key_package = current_key_package.clone();
     new_key_package.signing_share = signing_share;
+    new_key_package.verifying_share = signing_share.into();
 
     Ok(new_key_package)
 }
